@@ -63,7 +63,9 @@ class ResolveOuterVars(ast.NodeTransformer):
                 if undefined:
                     res.append(asty.Global(node, names=list(undefined)))
                 if defined:
-                    res.append(asty.Nonlocal(node, names=list(defined)))
+                    # Keep the order of the declaration, not of the set.
+                    res.append(asty.Nonlocal(
+                        node, names=[n for n in node.names if n in defined]))
                 return res
             defined.update(has.intersection(undefined))
             undefined = [name for name in undefined if name not in has]
